@@ -302,6 +302,23 @@ func ruleEvents(c *Ctx) {
 					}
 				}
 			}
+			// … or the table lives in a helper the baseline does not know: event := eventName(opcode), each
+			// constant returned under a test of the helper's own parameter
+			if hc, ok := cl.Call.Args[3].(*ssa.Call); ok && isNewHelper(hc.Call.StaticCallee()) && len(hc.Call.Args) == 1 && hc.Call.Args[0] == opParam {
+				h := hc.Call.StaticCallee()
+				hg := p.G(h)
+				for _, hb := range h.Blocks {
+					for _, hin := range hb.Instrs {
+						if r, isRet := hin.(*ssa.Return); isRet && len(r.Results) == 1 && len(h.Params) == 1 {
+							if ev, isK := constStr(r.Results[0]); isK {
+								if k, ok := posCondInt(hg.CondsAt(hb), h.Params[0]); ok {
+									got[k] = ev
+								}
+							}
+						}
+					}
+				}
+			}
 			// operand order
 			lvs := paramsOfType(fn, "LValue")
 			ok12 := len(lvs) == 2 && cl.Call.Args[1] == ssa.Value(lvs[0]) && cl.Call.Args[2] == ssa.Value(lvs[1])
